@@ -46,6 +46,7 @@ def tasks(tier, seed):
         t += [{"sub": "pairs_cfg", "shard": i, "nshard": n, "cfg": c} for i in range(n)]
     t += [{"sub": "listing", "shard": 0}]
     t += [{"sub": "autoreduce", "shard": i} for i in range(2)]
+    t += [{"sub": "generated", "shard": i} for i in range(2)]
     t += [{"sub": "checkdeco", "shard": i} for i in range(2)]
     return t
 
@@ -623,6 +624,44 @@ def run_checkdeco(task, tier, seed, col):
                seed=seed * 73 + task["shard"])
 
 
+# ---- randomly generated registries: the same biconditional, oracle = the generating model
+
+def case_generated(case, col=None):
+    import logging
+
+    import pint
+
+    from ..gen import regmodel
+
+    model, nit = case["model"], case["nit"]
+    logging.disable(logging.CRITICAL)
+    try:
+        lines, _ = regmodel.render(model)
+        ureg = pint.UnitRegistry(lines, non_int_type=env.NIT[nit], auto_reduce_dimensions=case.get("autoreduce", False))
+        res = regmodel.resolve(model)
+        names = sorted(res)
+        if col is not None:
+            col.case(("gen", "\n".join(lines), nit), True, sample={"lines": lines, "registry": nit}, cls="generated_registry")
+        sp = {v: k for k, v in regmodel.spellings(model).items() if v in res}
+        for a in names:
+            for b in names:
+                same = res[a][1] == res[b][1]
+                check_convert(ureg, a, b, same, tag="generated_convert")
+                if col is not None:
+                    col.count("generated_pairs")
+                if (hash((a, b)) & 3) == 0:
+                    check_all_points(ureg, sp.get(a, a), sp.get(b, b), same)
+    finally:
+        logging.disable(logging.NOTSET)
+
+
+def run_generated(task, tier, seed, col):
+    from ..gen import regmodel
+
+    strat = st.builds(lambda m, nit, ar: {"model": m, "nit": nit, "autoreduce": ar}, regmodel.models(with_offset=False), st.sampled_from(["float", "Fraction", "Decimal"]), st.booleans())
+    hyp_search(col, strat, lambda c: case_generated(c, col), max_examples=60 if tier == "quick" else 1500, seed=seed * 79 + task["shard"], shrink_budget_s=60)
+
+
 # ------------------------------------------------------------------------------------- dispatch
 
 def run_task(task, tier, seed, col):
@@ -641,6 +680,8 @@ def run_task(task, tier, seed, col):
         run_listing(task, tier, seed, col)
     elif sub == "autoreduce":
         run_autoreduce(task, tier, seed, col)
+    elif sub == "generated":
+        run_generated(task, tier, seed, col)
     elif sub == "checkdeco":
         run_checkdeco(task, tier, seed, col)
     else:
@@ -660,6 +701,8 @@ def replay(sub, case):
         return case_listing(case)
     if sub == "autoreduce":
         return case_autoreduce(case)
+    if sub == "generated":
+        return case_generated(case)
     if sub == "checkdeco":
         return case_checkdeco(case)
     raise ValueError(sub)
